@@ -351,6 +351,13 @@ class Model:
                     return self.global_constant(m2, tail, _depth + 1)
         return None
 
+    def effects(self):
+        """the (cached) interprocedural effects analysis of this program model"""
+        if getattr(self, "_effects_obj", None) is None:
+            from .effects import Effects
+            self._effects_obj = Effects(self)
+        return self._effects_obj
+
     # ---------------------------------------------------------------- purity
     PURE_BUILTINS = {"len", "min", "max", "abs", "float", "int", "str", "bool", "sum", "sorted", "list", "tuple", "dict", "set",
                      "range", "enumerate", "zip", "map", "filter", "isinstance", "round", "any", "all", "reversed", "frozenset",
@@ -363,8 +370,7 @@ class Model:
     def pure_functions(self) -> set:
         """repo functions without effects on parameters, self or module-level state (via the effects engine)"""
         if getattr(self, "_pure", None) is None:
-            from .effects import Effects
-            eff = Effects(self)
+            eff = self.effects()
             pure = set()
             for f in self.all_functions():
                 if eff.summary.get(f):
